@@ -85,12 +85,13 @@ def mk_basis_obj(items):
     return MeshBasis(*patts) if is_mesh_items(items) else Basis(*patts)
 
 
-def mk_av(items, form, salt=0):
-    """Build Av(...) from the JSON basis in the requested argument form."""
+def mk_av(items, form, salt=0, patts=None):
+    """Build Av(...) from the JSON basis in the requested argument form (from the given
+    pattern objects if any, e.g. objects that several threads share)."""
     pm = lazy_permuta()
     from permuta.perm_sets.basis import Basis, MeshBasis  # pylint: disable=import-outside-toplevel
 
-    patts = [mk_patt(it) for it in items]
+    patts = [mk_patt(it) for it in items] if patts is None else list(patts)
     if salt and len(patts) > 1:
         r = salt % len(patts)
         patts = patts[r:] + patts[:r]
